@@ -220,7 +220,7 @@ pub fn singular_query_segments(rule: Pair<Rule>) -> Parsed<Vec<SingularQuerySegm
         match r.as_rule() {
             Rule::name_segment => {
                 segments.push(SingularQuerySegment::Name(
-                    next_down(r)?.as_str().trim_matches(is_blank).to_string(),
+                    validate_js_str(next_down(r)?.as_str().trim_matches(is_blank))?.to_string(),
                 ));
             }
             Rule::index_segment => {
